@@ -83,6 +83,21 @@ func genNumber(r *rand.Rand, o ValOpts) cty.Value {
 	case 8, 9:
 		return cty.MustParseNumberVal(decimalPool[r.Intn(len(decimalPool))])
 	case 10:
+		if r.Intn(3) == 0 {
+			// few mantissa bits, magnitude outside (or at the edge of) float64's exponent
+			// range: m * 2^e with e around -1100 (below the smallest subnormal), around
+			// -1074..-1022 (subnormal: fewer than 53 bits available) or around +1023
+			m := int64(2*r.Intn(1<<20) + 1)
+			if r.Intn(2) == 0 {
+				m = int64(2*r.Int63n(1<<52) + 1)
+			}
+			e := []int{-1160, -1100, -1080, -1074, -1060, -1030, -1022, 960, 1000, 1023}[r.Intn(10)] + r.Intn(8)
+			f := new(big.Float).SetPrec(512).SetMantExp(new(big.Float).SetPrec(512).SetInt64(m), e)
+			if r.Intn(2) == 0 {
+				f.Neg(f)
+			}
+			return cty.NumberVal(f)
+		}
 		// low precision big.Float
 		f := new(big.Float).SetPrec(uint(1 + r.Intn(30))).SetFloat64(float64(r.Intn(2000)-1000) / 8)
 		return cty.NumberVal(f)
@@ -123,8 +138,9 @@ func concretize(r *rand.Rand, t cty.Type) cty.Type {
 		return cty.Tuple(n)
 	case t.IsObjectType():
 		atys := map[string]cty.Type{}
-		for k, v := range t.AttributeTypes() {
-			atys[k] = concretize(r, v)
+		src := t.AttributeTypes()
+		for _, k := range sortedKeys(src) { // sorted: every random draw must be a function of the seed
+			atys[k] = concretize(r, src[k])
 		}
 		return cty.Object(atys)
 	}
@@ -259,8 +275,9 @@ func genValUnmarked(r *rand.Rand, t cty.Type, depth int, o ValOpts) cty.Value {
 		return cty.TupleVal(vs)
 	case t.IsObjectType():
 		vs := map[string]cty.Value{}
-		for k, at := range t.AttributeTypes() {
-			vs[k] = genVal(r, at, depth-1, o)
+		atys := t.AttributeTypes()
+		for _, k := range sortedKeys(atys) { // sorted: every random draw must be a function of the seed
+			vs[k] = genVal(r, atys[k], depth-1, o)
 		}
 		return cty.ObjectVal(vs)
 	}
